@@ -676,7 +676,10 @@ pub fn c08_paths(b: &Board, p: &Pos, path: &str) -> R {
     let own = Board::from_str(&b.to_string());
     let std = Board::from_str(&p.fen());
     let viab = board_via_builder(p);
-    for (name, other) in [("own_fen", own), ("standard_fen", std), ("builder", viab)] {
+    // the same position written with "-" where no enemy pawn stands beside the pushed pawn (how it reads when it was
+    // reached by another last move): identical text to the standard FEN in every other case
+    let bare = Board::from_str(&p.fen_ep_if_beside());
+    for (name, other) in [("own_fen", own), ("standard_fen", std), ("builder", viab), ("fen_without_unusable_ep", bare)] {
         if let Ok(o) = other {
             if o == *b {
                 if o.get_hash() != b.get_hash() {
